@@ -264,6 +264,13 @@ def alphabet(level: str):
                 acts.append(["setcl", m, "7"])
                 acts.append(["setcl", m, None])
             acts.append(["reassign", m])
+    if not full:
+        # zstd takes the same route through the code as br (table entry, strict library decoder, cached): the reduced
+        # alphabet keeps one operation of each kind for it, the full alphabet (thorough tier) has all of them
+        keep = (["enc", "a", "zstd", "strict"], ["dec", "zstd:a", "zstd", "strict"], ["dec", "zstd:trunc", "zstd", "strict"],
+                ["assign", 0, "zstd", "a"], ["wire", 0, "zstd:a", "zstd"])
+        acts = [a for a in acts
+                if a in keep or not any(x == "zstd" or (isinstance(x, str) and x.startswith("zstd:")) for x in a)]
     return acts
 
 
@@ -334,6 +341,17 @@ def execute(cache, msgs, a):
                     f.append((b"content-length", str(len(raw)).encode()))
                 msgs[i] = (raw, tuple(f))
                 return out, cache, msgs
+            if op == "setraw":
+                # what `m.raw_content = ...` does: the body is replaced, no header is touched
+                msgs[i] = (INPUTS[a[2]], fields)
+                return out, cache, msgs
+            if op == "setcl":
+                # a wrong (or missing) Content-Length header
+                f = [kv for kv in fields if kv[0].lower() != b"content-length"]
+                if a[2] is not None:
+                    f.append((b"content-length", a[2].encode()))
+                msgs[i] = (raw, tuple(f))
+                return out, cache, msgs
             r = _real_message(i, raw, fields)
             try:
                 if op == "assign":
@@ -345,6 +363,10 @@ def execute(cache, msgs, a):
                     out["result"] = r.content  # read back
                 elif op == "get":
                     out["result"] = r.get_content(a[2])
+                elif op == "reassign":
+                    out["read"] = r.content
+                    r.content = out["read"]  # m.content = m.content
+                    out["result"] = r.content  # read back
                 elif op == "decode":
                     r.decode(a[2])
                 elif op == "encode":
@@ -372,6 +394,8 @@ def semantic(a, out, msgs):
     if op == "enc" and isinstance(res, bytes):
         res = sem(res, a[2])
     s = {"exc": out["exc"], "result": res}
+    if "read" in out:
+        s["read"] = out["read"]
     if out["msg"] is not None:
         raw, fields = msgs[out["msg"]]
         ce = hdr(fields, b"content-encoding")
@@ -421,6 +445,21 @@ def cache_features(cache, a, msgs):
             call = ("decode", msgs[a[1]][0], ce, "strict")
     elif op == "encode":
         call = ("encode", msgs[a[1]][0], a[2], "strict")
+    elif op == "reassign":
+        raw, ce = msgs[a[1]][0], hdr(msgs[a[1]][1], b"content-encoding")
+        if raw is not None and ce and ce.lower() in SUPPORTED:
+            # the read decodes (raw, ce) and leaves that pair in the cache; the assignment's encode call then finds
+            # it: the entry that matters is the one the operation makes itself
+            try:
+                ref_decode(raw, ce)
+                entry = "canonical"
+            except Undefined:
+                entry = "empty-raw"
+            except Reject:
+                entry = "lenient"
+            return entry, True, "decode"
+        if raw is not None:
+            call = ("encode", raw, ce or "identity", "strict")
     hit = False
     if call is not None and cache != EMPTY_CACHE:
         kind, val, coding, errors = call
@@ -492,8 +531,8 @@ def judge_step(a, pre_cache, pre_msgs, out, post_cache, post_msgs, case, t: Tall
         if out["msg"] is not None:
             print("     message %d before: %r\n     message %d after:  %r" % (out["msg"], pre_msgs[out["msg"]], out["msg"], post_msgs[out["msg"]]))
 
-    if op == "wire":
-        return
+    if op in ("wire", "setraw", "setcl"):
+        return  # set-up steps made by the harness itself: nothing of mitmproxy ran
     # --- stateless reference -------------------------------------------------
     if op == "enc" and supported:
         b = BODIES[a[1]]
@@ -542,6 +581,15 @@ def judge_step(a, pre_cache, pre_msgs, out, post_cache, post_msgs, case, t: Tall
                 t.add("decode_reference_undefined_or_rejects")
             if want is not None:
                 J("decode_matches_reference", out["exc"] is None and out["result"] == want, want, out)
+    elif op == "reassign":
+        # m.content = m.content: whatever was read is what must be there afterwards
+        i = a[1]
+        if supported and out["exc"] is None and out.get("read") is not None:
+            c = out["read"]
+            raw2, fields2 = post_msgs[i]
+            J("assign_then_read_same_bytes", out["result"] == c, c, out)
+            J("raw_decodes_independently", sem(raw2, hdr(fields2, b"content-encoding")) == ["content", c], c,
+              {"raw": raw2, "content_encoding": hdr(fields2, b"content-encoding")})
     elif op == "decode":
         i = a[1]
         raw, fields = pre_msgs[i]
@@ -564,7 +612,11 @@ def judge_step(a, pre_cache, pre_msgs, out, post_cache, post_msgs, case, t: Tall
               out["exc"] is None and sem(raw2, hdr(fields2, b"content-encoding")) == ["content", raw],
               raw, {"exc": out["exc"], "raw": raw2, "content_encoding": hdr(fields2, b"content-encoding")})
     # --- Content-Length ----------------------------------------------------------
-    if out["msg"] is not None:
+    # judged after every operation that assigns a body through mitmproxy and completes (the body or the header may
+    # have been set inconsistently before by setraw/setcl: an assignment has to leave them consistent; reads, failed
+    # operations and decode() of an empty body - documented as "no action" - change nothing and are not judged)
+    assigns = op in ("assign", "reassign", "encode") or (op == "decode" and bool(pre_msgs[a[1]][0]))
+    if out["msg"] is not None and assigns and out["exc"] is None:
         raw, fields = post_msgs[out["msg"]]
         if raw is not None and hdr(fields, b"transfer-encoding") is None:
             cl = hdr(fields, b"content-length")
@@ -594,7 +646,8 @@ def run(ctx):
     searches = ctx.pick([("reduced", 3)], [("full", 3), ("core", 4)])
     ctx.bounds = {"bodies": sorted(BODIES), "inputs": sorted(INPUTS),
                   "operations": "enc(body,coding,errors) dec(input,coding,errors) assign(msg,coding,body) wire(msg,input,coding) "
-                                "get(msg,strict) decode(msg,strict) encode(msg,coding)",
+                                "get(msg,strict) decode(msg,strict) encode(msg,coding) setraw(msg,input) setcl(msg,value|absent) "
+                                "reassign(msg) [m.content = m.content]",
                   "searches": []}
     for name, depth in searches:
         spec = Spec(name)
